@@ -18,6 +18,7 @@ type Config struct {
 	TickBudget int  // ticker ticks per execution
 	MaxPoints  int  // safety net against livelock (0: 20000)
 	MaxExec    int  // cap on executions (0: none); hitting it makes the result non-exhaustive
+	Races      bool // happens-before race oracle on (needs the -races instrumentation of the rewriter)
 	StateKeys  bool // prune by global state key: alternatives of a point are not explored again from a state that
 	// was already expanded with at least the same remaining preemption budget
 	Deadline time.Duration
@@ -50,6 +51,7 @@ type Stats struct {
 	Samples     []string
 	Truncated   int64
 	Pruned      int64
+	Accesses    int64 // memory accesses checked by the race oracle
 }
 
 type FoundAt struct {
@@ -79,7 +81,8 @@ func Explore(cfg Config) Stats {
 	start := time.Now()
 	seenSched := map[string]bool{}
 	UseStateKeys = cfg.StateKeys
-	defer func() { UseStateKeys = false }()
+	RaceMode = cfg.Races
+	defer func() { UseStateKeys = false; RaceMode = false }()
 	maxB := cfg.Bound
 	if maxB < 0 {
 		maxB = 1 << 30
@@ -137,6 +140,11 @@ func Explore(cfg Config) Stats {
 					}
 					fs = append(fs, Finding{"deadlock:" + sig, "no thread can make progress: " + r.Deadlock})
 				}
+				for _, e := range r.Races {
+					sig, what := raceSig(e)
+					fs = append(fs, Finding{"race:" + sig, what})
+				}
+				st.Accesses += r.Accesses
 				fs = append(fs, checked...)
 				out := "ok"
 				for _, f := range fs {
